@@ -27,17 +27,17 @@ CLASSES = {
     "C14": {"list-failure-not-fatal", "stopped-without-cause", "failure-not-reported", "ready-after-failed-first-list",
             "deliberate-close-reports-failure", "shutdown-timeout", "close-hangs"},
     "C05": ORDER | {"cache-older-than-event", "ctl-events-differ", "drop-not-full", "drop-unknown"},
-    "C06": KERNEL | {"refilter-lost", "filter-not-quiescent", "filter-not-set", "fsub-events-differ", "fsub-emits-other", "events-not-emitted",
+    "C06": KERNEL | {"refilter-lost", "filter-not-quiescent", "filter-not-set", "fsub-events-differ", "fsub-emits-other", "events-not-emitted", "runaway-goroutine",
                      "sync-list-not-parent-listing", "list-not-snapshot", "lost-at-quiescence", "stuck-at-quiescence", "order", "recv-unexplained"},
-    "C07": KERNEL | {"refilter-lost", "equal-filters-differ", "fsub-events-differ", "fsub-emits-other", "events-not-emitted", "filter-not-quiescent", "filter-not-set",
+    "C07": KERNEL | {"refilter-lost", "equal-filters-differ", "fsub-events-differ", "fsub-emits-other", "events-not-emitted", "runaway-goroutine", "filter-not-quiescent", "filter-not-set",
                      "sync-list-not-parent-listing", "recv-unexplained", "stuck-at-quiescence"},
     "C08": {"ready-before-sync", "publish-before-ready", "parent-not-ready", "ready-before-parent", "deferred-ready-without-filter",
             "ready-unsynced", "ready-with-wrong-filter", "ready-twice", "event-before-ready", "emit-before-ready", "ready-observed-not-declared", "list-not-snapshot",
             "callback-before-ready", "flag-mismatch"},
-    "C10": ORDER | {"drop-not-full", "drop-unknown", "cache-not-current", "filter-not-quiescent", "list-not-snapshot", "fsub-emits-other", "events-not-emitted", "close-hangs", "shutdown-timeout", "api-call-blocks"},
-    "C11": {"stopped-outside-closed-subtree", "cascade-incomplete", "shutdown-timeout", "closed-before-drained", "close-hangs", "api-call-blocks", "goroutine-leak"} | ORDER,
+    "C10": ORDER | {"drop-not-full", "drop-unknown", "cache-not-current", "filter-not-quiescent", "list-not-snapshot", "fsub-emits-other", "events-not-emitted", "runaway-goroutine", "close-hangs", "shutdown-timeout", "api-call-blocks"},
+    "C11": {"stopped-outside-closed-subtree", "cascade-incomplete", "shutdown-timeout", "closed-before-drained", "close-hangs", "api-call-blocks", "goroutine-leak", "runaway-goroutine"} | ORDER,
     "C12": {"goroutine-leak", "shutdown-timeout", "close-hangs", "call-blocks-after-done", "call-fails-after-done", "closed-before-drained", "api-call-blocks",
-            "racing-call-zombie"},
+            "racing-call-zombie", "runaway-goroutine"},
     "C16": {"callbacks-overlap", "initialize-not-first-or-twice", "callback-before-ready", "callback-after-done", "initialize-not-cache-content",
             "callback-before-initialize", "callback-not-next-event", "callback-of-unknown-monitor", "stuck-at-quiescence", "monitor-not-initialized"},
 }
